@@ -4,7 +4,8 @@
 # builder agents can keep running their checks against it.  Same code path as applying the patch to /repo:
 # every harness / extractor reads ${VERIF_REPO:-/repo}.
 P=$1; O=$2; TAG=${3:-$(basename $(dirname $(dirname $O)))_$(basename $O)}
-D=/tmp/seedrepo
+D=${SEEDREPO:-/tmp/seedrepo}
+V=${VERIF_DIR:-$(cd "$(dirname "$0")/.." && pwd)}
 [ -d $D ] || { git -C /repo worktree add -q --detach $D HEAD && cp /repo/src/aioquic/*.so $D/src/aioquic/; }
 cd $D && git checkout -q -- . && git checkout -q --detach $(git -C /repo rev-parse HEAD) || exit 2
 CC=$(grep -c '^+++ b/.*\.c$' $O/patch.diff)
@@ -13,7 +14,7 @@ git apply $O/patch.diff || { echo "APPLY-FAIL"; exit 2; }
 rb
 PYTHONPATH=$D/src /venv/bin/python $O/demo.py >/dev/null 2>&1; with=$?
 if [ -z "$NOTEST" ]; then T=$(PYTHONPATH=$D/src /venv/bin/python -m pytest -q -p no:cacheprovider -x tests/ 2>&1 | tail -1); else T=skipped; fi
-cd /verif && VERIF_REPO=$D ./check $P > /tmp/seed3_$TAG.log 2>&1; rc=$?
+cd $V && VERIF_REPO=$D ./check $P > /tmp/seed3_$TAG.log 2>&1; rc=$?
 cd $D && git checkout -q -- .; rb
 PYTHONPATH=$D/src /venv/bin/python $O/demo.py >/dev/null 2>&1; without=$?
 echo "demo with=$with without=$without tests: $T"
